@@ -75,13 +75,17 @@ class Schema(object):
         return dict(classes=[[k, [list(a) for a in at]] for k, at in self.classes],
                     rops=[[r.rel, r.src, r.src_keys, r.src_card, r.src_phrase,
                            r.tgt, r.tgt_keys, r.tgt_card, r.tgt_phrase] for r in self.rops],
-                    uniques=[[u[0], u[1], list(u[2])] for u in self.uniques])
+                    uniques=[[u[0], u[1], list(u[2])] for u in self.uniques],
+                    external_refs=sorted(list(x) for x in getattr(self, 'external_refs', ())))
 
     @staticmethod
     def from_json(j):
-        return Schema([(k, [tuple(a) for a in at]) for k, at in j['classes']],
-                      [Rop(*r) for r in j['rops']],
-                      [(u[0], u[1], list(u[2])) for u in j['uniques']])
+        s = Schema([(k, [tuple(a) for a in at]) for k, at in j['classes']],
+                   [Rop(*r) for r in j['rops']],
+                   [(u[0], u[1], list(u[2])) for u in j['uniques']])
+        if j.get('external_refs'):
+            s.external_refs = set(tuple(x) for x in j['external_refs'])
+        return s
 
     def describe(self):
         return dict(classes=[[k, ['%s:%s' % a for a in at]] for k, at in self.classes],
@@ -295,6 +299,8 @@ class Shadow(object):
                     if depth < 8:
                         vals |= self.read(t, kk, depth + 1)
         if not is_ref:
+            if (K, name.upper()) in getattr(self.schema, 'external_refs', ()):
+                return set([None])       # referential through an association the schema leaves out: never linked
             return set([self.rows[h].get(name)])
         return vals or set([None])
 
